@@ -202,7 +202,8 @@ fn wire_case(rng: &mut Rng, rec: &mut Rec) {
     }
 }
 
-const HOSTILE: [&[u8]; 36] = [
+const HOSTILE: [&[u8]; 41] = [
+    b"mailto:x@evil.test", b"evil.test:8080", b"tel:+1234", b"x:", b"urn:a.test:x",
     b"\xff\xfe", b"http://[::1", b"http://a b/", b"http://a.test:99999/", b"http://a.test:port/", b"http://user:pw@evil.test/", b"http:\\\\evil.test\\x", b"/\\evil.test", b"\\\\evil.test/", b"//", b"///", b"http://", b"http:///x",
     b"ht!tp://x/", b"javascript:alert(1)", b"mailto:a@b.test", b"ftp://ftp.test/f", b"file:///etc/passwd", b"http://[::1]/v6", b"http://[::1]:8080/v6", b"/a\tb", b"/a b", b" /lead", b"/%2e%2e/%2e%2e/x", b"/..%2fx", b"?\xc3\xa9", b"/\xc3\xa9",
     b"http://ex\xc3\xa4mple.test/", b"http://EVIL.test/", b"http://evil.test./", b"http://a.test@evil.test/", b"http://a.test%2f@evil.test/", b"http://evil.test#@a.test/", b"http://evil.test?@a.test/", b"//evil.test:80:80/", b"http://b.test:0080/x",
@@ -264,6 +265,16 @@ fn hostile_case(idx: u64, rec: &mut Rec) {
             rec.cov("hostile/followed");
             if !textual {
                 return rec.fail("C14/non-textual-location-followed", format!("Location {:?} led to a request for {}", esc(loc), uri));
+            }
+            // a reference with a scheme and no authority resolves to itself: a URI without a host, to
+            // which no request can be made - whatever host a request then goes to, the Location never
+            // named it as one
+            let r = split_uri(&String::from_utf8_lossy(loc));
+            // (http: and https: are left out: there WHATWG repairs what RFC 3986 would call a path, as in
+            // "http:\\evil.test\x", and the host is one the Location spells out)
+            let special = matches!(r.scheme.as_deref().map(|s| s.to_ascii_lowercase()).as_deref(), Some("http") | Some("https"));
+            if r.scheme.is_some() && r.authority.is_none() && !special {
+                return rec.fail("C14/followed-location-without-authority", format!("Location {:?} (scheme {:?}, no authority) led to a request for {} / {:?}", esc(loc), r.scheme, uri, head.lines().take(2).collect::<Vec<_>>()));
             }
             // weak oracle: never a request to an origin that is neither the base host nor named in the Location
             let new_host = host_of(&split_uri(&uri));
@@ -405,7 +416,8 @@ fn partial_locations_case(idx: u64, rec: &mut Rec) {
     let base = "http://a.test/dir/file?q=1";
     let mut h = RespHead::new(false, status);
     h.fields.push(Field::new("Location", first));
-    h.fields.push(Field::new("X-Between", b"1"));
+    // (every other case: the field between the two has an empty value)
+    h.fields.push(Field::new("X-Between", if idx % 2 == 0 { &b"1"[..] } else { &b""[..] }));
     h.fields.push(Field::new("Location", last));
     let full = h.render();
     let truncated = &full[..full.len() - cut_back];
